@@ -957,7 +957,12 @@ func (self *Metadata) journalFile() string {
 func (self *Metadata) uncheckedReset() error {
 	// Remove all related files from journal directory.
 	if len(self.journalPath) > 0 {
+		// The journal entries of this job are named <base>.<file>.  Without
+		// the trailing dot the entries of other forks whose name merely
+		// starts with this fork's name (fork10 when resetting fork1) would
+		// be deleted as well.
 		dir, base := filepath.Split(self.journalFile())
+		base += "."
 		paths, _ := util.Readdirnames(dir)
 		for _, p := range paths {
 			if strings.HasPrefix(p, base) {
